@@ -1,4 +1,6 @@
 import HmfVerif.Proofs.History
+import HmfVerif.Proofs.Terminates
+import HmfVerif.Gen.Desc
 /-!
 # C01 — cached outputs always equal a fresh computation
 
@@ -68,6 +70,49 @@ theorem dictInsert_lookup_ne (l : List (Nat × Nat)) (k v k' : Nat) (h : k' ≠ 
     · split
       · rename_i h2; subst h2; simp [List.lookup, hb]
       · simp only [List.lookup]; split <;> simp_all
+
+/-! ## The real classes (descriptors regenerated from /repo/src by `tools/pyflow.py` on every run) -/
+
+/-- the translator met no Python it could not express -/
+theorem translator_total : Gen.unsupported = [] := by decide
+
+/-- W1–W5 for the five framework classes as they are in the source **now**: acyclic read graph with
+    a topological certificate, every read a declared parameter or an existing quantity body (no
+    plain-attribute or hidden-slot reads of instance state), constructor keywords = declared
+    parameters each assigned, no writes to `self` inside bodies, no mutable default arguments, no
+    sub-frameworks. -/
+theorem real_classes_wf : Gen.allDescs.all (fun c => c.2.WF) = true := by decide +kernel
+
+/-- On a well-formed class every quantity read terminates within an explicit fuel bound, for every
+    parameter valuation, oracle and validator assignment — so `coherent_after_history` is never
+    vacuous through fuel exhaustion. -/
+theorem eval_terminates (C : ClassDesc) (I : Nat → Val → Bool) (N : Nat → Val → Val) (vd : Name → Vd)
+    (hwf : C.WF = true) (pv : Name → Val) (n : Name) (hq : (C.bodyOf (C.resolve n) n).isSome = true) (f : Nat)
+    (hf : C.coneFuel ≤ f) : ∃ r, evalPure (C.toEnv I N vd) pv f (.q n) = some r := by
+  have hwr : C.wfReads = true := by
+    unfold ClassDesc.WF at hwf; simp only [Bool.and_eq_true] at hwf; exact hwf.1.1.1
+  have hok : C.okReads (C.maxHgt + 1) (.q n) = true := by
+    simp only [ClassDesc.okReads, Bool.and_eq_true, decide_eq_true_eq]
+    refine ⟨hq, ?_⟩
+    cases hb : C.bodyOf (C.resolve n) n with
+    | none => simp [hb] at hq
+    | some tb =>
+      have hmem := bodyOf_mem C _ _ _ hb
+      have hall : C.bodies.all (fun b => ClassDesc.okReads C (C.hgtOf b.1 b.2.1) b.2.2 && decide (b.2.2.depth ≤ C.maxDepth) &&
+                       decide (C.hgtOf b.1 b.2.1 ≤ C.maxHgt)) = true := by
+        unfold ClassDesc.wfReads at hwr; simp only [Bool.and_eq_true] at hwr; exact hwr.1
+      have hb' := List.all_eq_true.mp hall _ hmem
+      simp only [Bool.and_eq_true, decide_eq_true_eq] at hb'
+      omega
+  exact evalPure_total C I N vd hwr pv _ _ hok f (by simpa [fuelBound, ClassDesc.coneFuel, Tm.depth] using hf)
+
+/-- C01 instantiated: on each real class, any history from a fresh object answers as the
+    specification does (any oracle for data-dependent branches, any validators). -/
+theorem real_classes_coherent (c : String × ClassDesc) (_hc : c ∈ Gen.allDescs)
+    (I : Nat → Val → Bool) (N : Nat → Val → Val) (vd : Name → Vd) (fuel : Nat) (ops : List Op) (pv : Name → Val)
+    (i : Nat) (o : Out) (ho : (run (c.2.toEnv I N vd) fuel (St.fresh pv) ops).1[i]? = some o) (hne : o ≠ .nofuel) :
+    ∃ f', (specRun (c.2.toEnv I N vd) f' pv ops).1[i]? = some o :=
+  run_coherent _ fuel ops _ (fresh_inv _ pv) i o ho hne
 
 /-- non-vacuity: a 3-level descriptor with an override calling `super`, a data-dependent branch and a
     raising branch; a history on it produces a recomputation after a parameter change. -/
